@@ -120,7 +120,7 @@ def run(ctx):
 
     def oracles():
         import traceback
-        for fn, args in ((_oracle_reference_matrices, (ctx, relems, tr)),
+        for fn, args in ((_oracle_reference_matrices, (ctx, relems, tr)), (_oracle_tind_mapping, (ctx, meshes, tr)),
                          (_oracle_subset_sequences, (ctx, meshes, tr)), (_oracle_order_sweep, (ctx, tr)),
                          (_oracle_cells, (ctx, meshes, tr)), (_oracle_facets, (ctx, meshes, tr)), (_oracle_invariance, (ctx, meshes, tr)),
                          (_oracle_lagrange, (ctx, tr)), (_oracle_partition_of_unity, (ctx, meshes, tr))):
@@ -386,6 +386,57 @@ def _oracle_order_sweep(ctx, tr):
                     tr.cmp(f'facets:{kind}:boundary:order={n}', f'Functional(x^{list(e)}) over boundary facets of a {kind} mesh, intorder {n}',
                            got, want, _tight_scale(m, e, fmeasure),
                            {**mesh_data(m), 'facets': np.asarray(fs).tolist(), 'intorder': n, 'monomial': list(e)})
+
+
+# ---- the memory-saving MappingAffine(mesh, tind=cells) passed as mapping= to a basis restricted to those cells
+
+def _tind_witnesses():
+    import skfem
+    A2 = np.array([[2., 1.], [0., 1.]])
+    mt = skfem.MeshTri.init_tensor(np.array([0., 1., 3.]), np.array([0., 2., 3.]))
+    A3 = np.array([[1., 1., 0.], [0., 2., 1.], [1., 0., 1.]])
+    mk = skfem.MeshTet.init_tensor(np.array([0., 1.]), np.array([0., 2.]), np.array([0., 1., 3.]))
+    return [('tri', skfem.MeshTri(A2 @ mt.p, mt.t), [1, 2, 5]), ('tri', skfem.MeshTri(A2 @ mt.p, mt.t), [0, 7]),
+            ('tet', skfem.MeshTet(A3 @ mk.p, mk.t), [0, 3, 5]), ('tet', skfem.MeshTet(A3 @ mk.p, mk.t), [2, 4, 7, 9])]
+
+
+def _oracle_tind_mapping(ctx, meshes, tr):
+    """Basis(mesh, elem, mapping=MappingAffine(mesh, tind=cells), elements=cells): integrals of monomials (detA of the
+    restricted mapping) and of a derivative of an interpolated linear function (invA of the restricted mapping) over the
+    subset vs the exact values; fixed witnesses (every tier) plus the random simplex meshes of the run"""
+    from skfem.assembly import Basis, Functional
+    from skfem.mapping import MappingAffine
+    rng = ctx.rng
+    cases = [(k, m, sorted(c), True) for k, m, c in _tind_witnesses()]
+    for kind, general, m in meshes:
+        if kind in ('tri', 'tet') and m.t.shape[1] >= 2:
+            nt_ = m.t.shape[1]
+            cases.append((kind, m, sorted(rng.sample(range(nt_), max(1, nt_ // 2))), False))
+    for kind, m, cells, fixed in cases:
+        d = m.p.shape[0]
+        elem = default_elem(m)
+        cells_a = np.array([c for c in cells if c < m.t.shape[1]], dtype=np.int64)
+        n = 3
+        one = {tuple([0] * d): Fraction(1)}
+        measure = float(sum(X.cell_integrals(m, one)))
+        sub_measure = float(sum(X.cell_integrals(m, one, cells_a)))
+        basis = Basis(m, elem, mapping=MappingAffine(m, tind=cells_a), elements=cells_a, intorder=n)
+        for e in [tuple([0] * d)] + [e for e in monos(d, 1) if sum(e) == 1] + [e for e in monos(d, n) if sum(e) == n][:2]:
+            poly = X.monomial(e)
+            want = float(sum(X.cell_integrals(m, poly, cells_a)))
+            got = float(functional_of(poly).assemble(basis))
+            ctx.count(('tind-mapping', kind, fixed, e, np.asarray(m.p).tobytes(), tuple(cells)), nontrivial=True)
+            tr.cmp(f'tind-mapping:{kind}', f'Functional(x^{list(e)}) over cells {list(map(int, cells_a))} of a {kind} mesh with '
+                   f'mapping=MappingAffine(mesh, tind=cells)', got, want, scale_of(m, poly, measure),
+                   {**mesh_data(m), 'intorder': n, 'monomial': list(e), 'elements': [int(c) for c in cells_a], 'tind_mapping': True})
+        # d/dx_0 of the P1 interpolant of x_0 + 2 x_1 (+ 3 x_2) is 1: uses invA of the restricted mapping
+        full = Basis(m, elem)
+        coef = [1.0, 2.0, 3.0][:d]
+        u = sum(c * full.doflocs[i] for i, c in enumerate(coef))
+        got = float(Functional(lambda w: w['u'].grad[0]).assemble(basis, u=basis.interpolate(u)))
+        tr.cmp(f'tind-mapping:{kind}:gradient', f'integral of d/dx_0 of the interpolant of a linear function over cells {list(map(int, cells_a))} '
+               f'with mapping=MappingAffine(mesh, tind=cells)', got, sub_measure, measure,
+               {**mesh_data(m), 'elements': [int(c) for c in cells_a], 'tind_mapping': True, 'linear_function_coefficients': coef})
 
 
 # ---- several different cell / facet subsets of EQUAL size, one after the other on ONE long-lived mesh object
@@ -684,7 +735,7 @@ def replay(ctx, data):
     inp = data.get('input', {})
     ctx.log('replaying', key)
     head = key.split(':')[0]
-    if head not in ('cells', 'subset', 'subdomain', 'facets', 'mass-sum', 'subset-seq', 'facet-seq') or 'p' not in inp:
+    if key.endswith(':gradient') or head not in ('cells', 'subset', 'subdomain', 'facets', 'mass-sum', 'subset-seq', 'facet-seq', 'tind-mapping') or 'p' not in inp:
         return run(ctx)
     cls = getattr(skfem, inp['mesh'])
     kw = {'sort_t': False} if 'Tri' in inp['mesh'] else {}
@@ -724,7 +775,11 @@ def replay(ctx, data):
         sc = scale_of(m, poly, max(X.facet_integral_value(m, one, fs), 1.0))
     else:
         cells = inp.get('elements')
-        b = Basis(m, default_elem(m), intorder=n, elements=None if cells is None else np.array(cells))
+        kwm = {}
+        if inp.get('tind_mapping'):
+            from skfem.mapping import MappingAffine
+            kwm = {'mapping': MappingAffine(m, tind=np.array(cells))}
+        b = Basis(m, default_elem(m), intorder=n, elements=None if cells is None else np.array(cells), **kwm)
         got = float(F.assemble(b))
         want = float(sum(X.cell_integrals(m, poly, cells)))
         sc = scale_of(m, poly, meas)
